@@ -85,6 +85,7 @@ func (w *Worker) Run(entry *ssa.Function, harness string, prefix []int32, wantSa
 	i.depth = 0
 	i.mapOrder = i.baseMapOrder
 	i.nowTick = 0
+	i.onSortSlice = nil
 	i.syncObjs = make(map[*value]*syncObj)
 	i.schedInit()
 	defer i.schedShutdown()
